@@ -35,7 +35,15 @@ CHECKS['C03'] = ('hpack', 'transcribed RFC 7541 decoder in TLA+ (HpackWire/Hpack
 CHECKS['C04'] = ('hpack', 'recorded real-encoder output parsed and decoded by the TLA+ RFC 7541 model (TLC trace validation)', 'For header-list sequences with store/sensitive flags and SetMaxTableSize schedules (bounded-exhaustive templates + seeded random, >70 inserts, integer boundary lengths, names/values ending in 0x00) the bytes the real AppendHeader emits are parsed by HpackWire!ParseIns (must parse completely), applied to the RFC decoder model and compared with the input list, the logged encoder table, the peer limit, update placement and never-indexed representation.', CODEC_NOTE, '6 C04')
 CHECKS['C05'] = ('frames', 'transcribed RFC 7540 frame layout in TLA+ (Frames.tla) model-checked for parse(serialise)=id; recorded WriteTo / ReadFrameFrom calls validated by TLC', 'FramesModel.tla checks ParseFrame(FrameBytes(f)) = f over an enumerated frame domain; every frame value buildable through the public API is written by the real code and the bytes must parse (in TLA+ and by x/net) to the fields that were set; frames from an independent writer (x/net, raw builder) with all flag bytes, reserved bits, padding and boundary values are read by the real parser and compared with ParseFrame, including bytes consumed.', CODEC_NOTE, '6 C05')
 CHECKS['C16'] = ('frames', 'TLC trace validation of real parser calls on truncations, mutations and random bytes against the total ParseFrame / HPACK progress model, plus a pool-ownership state machine over hook events', 'Every truncation of valid frame streams, structure-aware mutations and seeded random bytes are fed to ReadFrameFrom[WithSize] and HPACK.Next; FramesTrace.tla requires error-or-correct-reading of exactly 9+length bytes, reader positioned at the next frame, no panic, allocation within the limit, each HPACK step consuming input or failing, and validates the pool Get/Put events of every call with an ownership state machine (double put / two owners).', CODEC_NOTE, '6 C16')
-NOT_YET = {p: 'client-side and concurrency checks are the next build step (DESIGN.md section 9, step 4); not claimed until built' for p in ('C02', 'C07', 'C11', 'C12', 'C19')}
+CLI_TECH = 'TLA+ model of the client connection (H2Client.tla) model-checked by TLC; its environment histories (+ generators) replayed in lock-step into a real http2.Conn against a scripted x/net server peer; recorded traces validated by TLC against H2ClientTrace.tla'
+CLI_NOTE = 'trusts TLC, golang.org/x/net/http2 as the independent server peer, client loop hooks (build tag verif) for quiescence, JSON trace I/O; Conn-level API (Client.RoundTrip retry loop is exercised only through the error classes it retries on)'
+def cli(pid, text, ref):
+    CHECKS[pid] = ('client', CLI_TECH, text, CLI_NOTE, ref)
+cli('C02', 'H2Client.tla is model-checked (own response only, fresh increasing ids) over callers x server response orders; histories plus generators (response header blocks continued in CONTINUATION at every byte, END_STREAM on HEADERS with CONTINUATION following, four interleaved responses in all orders with chunking/padding, request body shapes and sizes up to above the windows, connection-specific fields) are replayed; the monitor compares what the x/net server peer received with what the caller gave and what the caller got with what the peer sent on that stream.', '6 C02')
+cli('C07', 'Same ledger as C06 from the server peer side: initial windows, WINDOW_UPDATE, SETTINGS_INITIAL_WINDOW_SIZE deltas (negative windows), MAX_FRAME_SIZE changes; every client DATA frame is checked against the ledger, END_STREAM exactly once, no stall at quiescence while both windows are open.', '6 C07')
+cli('C11', 'GOAWAY(last, code) at every position relative to in-flight requests and their partial responses, subsequent response orders, connection loss, REFUSED_STREAM, double GOAWAY, new requests afterwards; the monitor requires no new stream after GOAWAY, requests above last to fail by the next quiescence and never succeed, requests at or below last to complete when the server delivers.', '6 C11')
+cli('C12', 'Fault enumeration: every cut point of a recorded server byte stream (all offsets in the thorough tier), adversarial frames inserted at several positions (oversize, PUSH_PROMISE, bad HPACK, bad padding, short fixed-size frames, unknown types, frames on unopened streams), Close racing Write at each stage, write failures at the k-th byte, cancellation at each stage; every request must resolve exactly once, loops must exit, no goroutine left.', '6 C12')
+NOT_YET = {p: 'client-side and concurrency checks are the next build step (DESIGN.md section 9, step 4); not claimed until built' for p in ('C19',)}
 
 def main():
     props = [json.loads(l) for l in open(os.path.join(V, 'properties.jsonl'))]
@@ -71,6 +79,9 @@ def main():
             {'name': 'server', 'path': 'spec/RFC7540.tla spec/HttpMsg.tla spec/H2Server.tla spec/H2ServerTrace.tla harness/srvdrv.go harness/memconn.go lib/srvfam.py',
              'serves_properties': ['C01', 'C06', 'C08', 'C09', 'C10', 'C13', 'C14', 'C17', 'C18', 'C20'],
              'kind_free_text': 'TLA+ design model of the server connection + RFC oracle; TLC-generated scenarios replayed into the real server (x/net peer, in-memory conn, hook quiescence); TLC trace validation'},
+            {'name': 'client', 'path': 'spec/H2Client.tla spec/H2ClientTrace.tla harness/clidrv.go lib/cliprop.py',
+             'serves_properties': ['C02', 'C07', 'C11', 'C12', 'C14', 'C18', 'C20'],
+             'kind_free_text': 'TLA+ design model of the client connection; TLC-generated scenarios replayed into a real http2.Conn (scripted x/net server peer, in-memory conn, hook quiescence); TLC trace validation'},
             {'name': 'hpack', 'path': 'spec/HpackWire.tla spec/Hpack.tla spec/HpackStatic.tla spec/HpackModel.tla spec/HpackTrace.tla harness/hpack.go lib/props/hpack_common.py',
              'serves_properties': ['C03', 'C04'], 'kind_free_text': 'TLA+ transcription of RFC 7541 + TLC trace validation of real decoder/encoder runs'},
             {'name': 'frames', 'path': 'spec/Frames.tla spec/FramesModel.tla spec/FramesTrace.tla harness/frames*.go lib/props/frames_common.py',
